@@ -101,7 +101,7 @@ def scenario(sc, tmproot, chooser_factory):
         elif k == "command":
             o = W.CommandLineWorker("consume {file}")
         o._ctl_name = "o%d" % (i + 1)
-        S.qnames[id(o._inbox)] = o._ctl_name
+        S.qnames[id(sched.inbox_of(o))] = o._ctl_name
         observers.append(o)
     W.print = lambda text: printed.append(text)
     played = []
@@ -132,7 +132,7 @@ def scenario(sc, tmproot, chooser_factory):
         cache_sec = sc["cache_blocks"] * B / sr - (0.4 * B / sr if sc["cache_blocks"] > 0 else 0)
         saver = W.StreamSaverWorker(reader, fn, cache_size_sec=max(0.0, cache_sec))
         saver._ctl_name = "saver"
-        S.qnames[id(saver._inbox)] = "saver"
+        S.qnames[id(sched.inbox_of(saver))] = "saver"
         src = saver
     w = B / sr
     vkw = {"validator": val}
@@ -141,25 +141,24 @@ def scenario(sc, tmproot, chooser_factory):
         # split() builds the energy validator itself from the keyword arguments the worker forwards; every alias spelling
         # must reach it (C12: the worker's detections equal what split() returns for the same parameters)
         from .split import ETH
-        Base = core.AudioEnergyValidator
-        patched_val = Base
+        Base = util.AudioEnergyValidator
+        patched_val = Base.is_valid
 
-        class LoggingEnergyValidator(Base):
-            def is_valid(self_, d):
-                v = bool(Base.is_valid(self_, d))
-                judged[0] += 1
-                sched.SCHED.note(pt="V", v=v)
-                return v
-        core.AudioEnergyValidator = LoggingEnergyValidator
+        def logged_is_valid(self_, d):
+            v = bool(patched_val(self_, d))
+            judged[0] += 1
+            sched.SCHED.note(pt="V", v=v)
+            return v
+        Base.is_valid = logged_is_valid
         vkw = {sc.get("eth_name", "energy_threshold"): ETH}
         if sc.get("uc", "absent") != "absent":
             vkw[sc.get("uc_name", "use_channel")] = sc["uc"]
     tw = W.TokenizerWorker(src, observers, min_dur=(mn - 0.5) * w, max_dur=(mx + 0.5) * w, max_silence=(sl + 0.5) * w,
                            drop_trailing_silence=drop, strict_min_dur=strict, **vkw)
     if patched_val is not None:
-        core.AudioEnergyValidator = patched_val
+        util.AudioEnergyValidator.is_valid = patched_val
     tw._ctl_name = "tok"
-    S.qnames[id(tw._inbox)] = "tok"
+    S.qnames[id(sched.inbox_of(tw))] = "tok"
     stop_after = sc["stop_after"]
 
     def main():
@@ -364,15 +363,16 @@ def scenario_cli(sc, tmproot, chooser_factory):
         else:
             name = "o%d" % (1 + sum(1 for x in created if x[0].startswith("o")))
         self_._ctl_name = name
-        S.qnames[id(self_._inbox)] = name
+        S.qnames[id(sched.inbox_of(self_))] = name
         created.append((name, self_))
 
-    class LoggingValidator(orig_val):
-        def is_valid(self_, d):
-            v = bool(orig_val.is_valid(self_, d))
-            verdicts.append(v)
-            S.note(pt="V", v=v)
-            return v
+    orig_is_valid = util.AudioEnergyValidator.is_valid
+
+    def logged_is_valid(self_, d):
+        v = bool(orig_is_valid(self_, d))
+        verdicts.append(v)
+        S.note(pt="V", v=v)
+        return v
     shim_t = types.ModuleType("time_shim")
 
     def ctl_sleep(sec):
@@ -400,7 +400,7 @@ def scenario_cli(sc, tmproot, chooser_factory):
     try:
         aio.BufferAudioSource.read = logging_read
         W.Worker.__init__ = naming_init
-        core.AudioEnergyValidator = LoggingValidator
+        util.AudioEnergyValidator.is_valid = logged_is_valid
         C.time, C.threading = shim_t, shim_th
         W.print = lambda text: printed.append(text)
 
@@ -410,7 +410,7 @@ def scenario_cli(sc, tmproot, chooser_factory):
     finally:
         aio.BufferAudioSource.read = orig_read
         W.Worker.__init__ = orig_init
-        core.AudioEnergyValidator = orig_val
+        util.AudioEnergyValidator.is_valid = orig_is_valid
         C.time, C.threading = orig_time, orig_threading
     tw = next((o for n, o in created if n == "tok"), None)
     dets = []
@@ -787,6 +787,14 @@ BIT = {"C12": 1, "C13": 2, "C14": 4}
 
 
 def report_runs(V, prop, runs, wd, leg):
+    # "stuck" = a managed thread blocked somewhere the controller does not see (a real sleep, lock or queue): the run is not
+    # an observation of the protocol under a controlled schedule; it is counted and reported as a divergence, never as a verdict
+    stuck = [r for r in runs if r[2]["status"] == "stuck"]
+    for r in stuck:
+        V.divergence({"uncontrolled": True, "scenario": {k: v for k, v in r[0].items() if k not in ("schedule", "seed")}})
+    runs = [r for r in runs if r[2]["status"] != "stuck"]
+    if not runs:
+        return
     obs = [r[2] for r in runs]
     rows, st = judge("WorkersObs", OBS_CFG, obs, wd, "wo_" + leg, weight=lambda x: len(x["stream"]) + 1)
     V.cov["states"] += st
